@@ -173,6 +173,8 @@ CATALOGUE = [
     ("mvar-first-table-model-reused", "varLib/__init__.py", "        if tableTag != lastTableTag:\n            tables = fontTable = None", "        if tableTag != lastTableTag and lastTableTag is None:\n            tables = fontTable = None", "C10", "AddMVAR", "alarm"),
     ("gvar-deltas-paired-with-wrong-support", "varLib/__init__.py", "        for i, (delta, support) in enumerate(zip(deltas[1:], supports[1:])):", "        for i, (delta, support) in enumerate(zip(deltas[1:], supports)):", "C10", "AddGvar", "alarm"),
     ("vorg-default-of-first-master", "varLib/__init__.py", "                metrics[glyph] if glyph in metrics else defaultVOrig", "                metrics[glyph] if glyph in metrics else vOrigMetricses[0][1]", "C10", "GetAdvanceMetrics", "alarm"),
+    ("t2pen-current-point-not-advanced", "pens/t2CharStringPen.py", "        pt = self._p0 = (self.round(pt[0]), self.round(pt[1]))", "        pt = (self.round(pt[0]), self.round(pt[1]))", "C14", "T2CharStringPenRoundTrip", "alarm"),
+    ("t2pen-delta-rounded-again", "pens/t2CharStringPen.py", "        return [pt[0] - p0[0], pt[1] - p0[1]]", "        return [self.round(pt[0] - p0[0]), pt[1] - p0[1]]", "C14", "T2CharStringPenRoundTrip", "green"),
     ("closure-memo-subset-spelling", "subset/__init__.py", "    if cur_glyphs.issubset(covered):\n        return\n    covered.update(cur_glyphs)\n\n    for st in self.SubTable:", "    if cur_glyphs <= covered:\n        return\n    covered.update(cur_glyphs)\n\n    for st in self.SubTable:", "C07", "LookupClosureMemo", "green"),
 ]
 
